@@ -34,6 +34,7 @@
 #ifndef NF
 #define NF 3            /* flows per task object */
 #endif
+#define NFS 8           /* flow slots physically present in a task object */
 #ifndef NTASK
 #define NTASK 5         /* static task objects used (<= 6) */
 #endif
@@ -50,8 +51,10 @@
 #include "parsec/interfaces/dtd/insert_function_internal.h"
 typedef struct vp_vtask_s {
     parsec_dtd_task_t       t;
-    parsec_dtd_task_flow_t  f[NF];     /* TASK_FLOW_OF(): directly behind the task */
-    uint32_t                sent[NF];  /* rank_sent_to storage (1 word per flow: nb_nodes = 1) */
+    /* NFS > every loop unwinding bound used by the queries: CBMC also unfolds loop iterations that an
+     * assumption (nb_flows <= NF) excludes, and they must stay inside the object */
+    parsec_dtd_task_flow_t  f[NFS];    /* TASK_FLOW_OF(): directly behind the task */
+    uint32_t                sent[NFS]; /* rank_sent_to storage (1 word per flow: nb_nodes = 1) */
 } vtask_t;
 _Static_assert(offsetof(vtask_t, f) == sizeof(parsec_dtd_task_t), "flows start directly behind the task struct");
 
@@ -77,6 +80,8 @@ static void  vp_mp_free(parsec_mempool_t *mp, void *elt);
 static vtask_t                 VT_0, VT_1, VT_2, VT_3, VT_4, VT_5;
 static vtask_t *const          VTP[6] = { &VT_0, &VT_1, &VT_2, &VT_3, &VT_4, &VT_5 };
 #define VT(k) (*VTP[k])
+/* task k as the runtime sees it: a pointer to the whole allocation */
+#define TASKP(k) ((parsec_dtd_task_t *)(void *)VTP[k])
 static parsec_dtd_task_class_t TC_0, TC_1, TC_2, TC_3, TC_4, TC_5;     /* one class object per task: nb_flows may differ */
 static parsec_dtd_task_class_t *const TCP[6] = { &TC_0, &TC_1, &TC_2, &TC_3, &TC_4, &TC_5 };
 #define TC(k) (*TCP[k])
@@ -147,7 +152,7 @@ static void *vp_tm_alloc(parsec_thread_mempool_t *tm)
     for(int i = 0; i < NTASK; i++) if(i == k) {
         VT(i).t.super.super.super.obj_reference_count = 1;      /* as left by the mempool */
         VT(i).t.mempool_owner = &TMP[0];
-        return &VT(i).t;
+        return (void *)VTP[i];     /* the whole object, as a mempool returns it (not a pointer to its first member) */
     }
     return NULL;
 }
@@ -292,10 +297,10 @@ static parsec_dtd_task_t *vp_insert1(int k, int tile, int op)
 
 /* the steps of __parsec_task_progress for a ready task (prepare_input, [hook], prepare_output,
  * complete_execution, release_task), the hook being the caller's business */
-static int vp_prepare(int k) { return data_lookup_of_dtd_task(&ES, &VT(k).t.super); }
+static int vp_prepare(int k) { return data_lookup_of_dtd_task(&ES, (parsec_task_t *)TASKP(k)); }
 static void vp_complete(int k)
 {
-    parsec_task_t *task = &VT(k).t.super;
+    parsec_task_t *task = (parsec_task_t *)TASKP(k);
     task->task_class->prepare_output(&ES, task);
     task->task_class->complete_execution(&ES, task);
     (void)task->task_class->release_task(&ES, task);
